@@ -9,6 +9,7 @@ package main
 // counts as a counterexample only for the variant with all hypotheses.
 
 import (
+	"sort"
 	"bytes"
 	"runtime"
 	"context"
@@ -177,7 +178,7 @@ func (o *Obligation) variants() []scriptVariant {
 			tags = append(tags, tag)
 		}
 	}
-	goal := []*Term{o.Path, Not(o.Cond)}
+	goal := []*Term{o.Path, Not(skolemize(o.Cond))}
 	var qf, quant []*Term
 	for _, h := range hs {
 		if hasQuant(h) {
@@ -198,6 +199,32 @@ func (o *Obligation) variants() []scriptVariant {
 		return []scriptVariant{{"full", full, true}}
 	}
 	out := []scriptVariant{{"qf", mkScript(qf), false}}
+	// "inst": the quantifier-free hypotheses plus the instances of the bounded quantified ones at
+	// the array indices read in the goal and the path condition (see inst.go)
+	{
+		gm := map[*Term]bool{}
+		sn := map[*Term]bool{}
+		for _, g := range goal {
+			groundReadIndices(g, gm, sn)
+		}
+		var grounds []*Term
+		for g := range gm {
+			grounds = append(grounds, g)
+		}
+		sort.Slice(grounds, func(i, j int) bool { return grounds[i].id < grounds[j].id })
+		if len(grounds) > 0 && len(grounds) <= 40 {
+			inst := append([]*Term{}, qf...)
+			n := 0
+			for _, h := range quant {
+				is := instances(h, grounds, 40)
+				inst = append(inst, is...)
+				n += len(is)
+			}
+			if n > 0 && n <= 1500 {
+				out = append(out, scriptVariant{"inst", mkScript(inst), false})
+			}
+		}
+	}
 	goalSyms := map[*Term]bool{}
 	{
 		seen := map[*Term]bool{}
@@ -286,6 +313,38 @@ func (o *Obligation) variants() []scriptVariant {
 		if share {
 			rel = append(rel, q)
 			nrel++
+		}
+	}
+	// "tight": only the quantified hypotheses that share a heap (array-sorted symbol) or an
+	// uninterpreted predicate with the goal formula itself, leaving the path condition out of the
+	// relevance test (a subset of the hypotheses: unsat here is unsat in full)
+	{
+		cs := map[*Term]bool{}
+		symsOf(Not(o.Cond), cs, map[*Term]bool{})
+		key := map[*Term]bool{}
+		for s := range cs {
+			if (s.Sort != nil && s.Sort.Kind == SArray) || strings.HasPrefix(s.Name, "uf_") {
+				key[s] = true
+			}
+		}
+		if len(key) > 0 {
+			var tight []*Term
+			tight = append(tight, qf...)
+			nt := 0
+			for _, q := range quant {
+				qs := map[*Term]bool{}
+				symsOf(q, qs, map[*Term]bool{})
+				for s := range qs {
+					if key[s] {
+						tight = append(tight, q)
+						nt++
+						break
+					}
+				}
+			}
+			if nt > 0 && nt < nrel {
+				out = append(out, scriptVariant{"tight", mkScript(tight), false})
+			}
 		}
 	}
 	if nrel > 0 && nrel < len(quant) {
